@@ -426,6 +426,18 @@ def op_third_path_config(s):
     return s
 
 
+def op_partial_path_config(s):
+    """Two projects, and a third path configuration that hosts only the first of them: the other project's Sids have no path there."""
+    s = copy.deepcopy(s)
+    if len(s["projects"]) < 2:
+        s["projects"] = {"macbeth": "MACBETH", "lear": "KING_LEAR"}
+    first = list(s["projects"])[0]
+    s["path_configs"] = dict(s["path_configs"], archive={
+        "root": "ARCHIVE", "prod": s.get("prod"),
+        "projects": {first: "arch_" + s["projects"][first].lower()}})
+    return s
+
+
 def op_third_path_config_demo_style(s):
     """The third path configuration (own vocabulary) written in the style of the demo's second one (star import, shallow copy)."""
     s = op_third_path_config(s)
@@ -463,7 +475,8 @@ OPERATORS = [("rename-keys", op_rename_keys), ("rename-basetypes", op_rename_bas
              ("separator", op_separator), ("folders", op_folders), ("vocabularies", op_vocabularies), ("digit-patterns", op_digits),
              ("third-basetype", op_third_basetype), ("third-path-config", op_third_path_config),
              ("explicit-levels", op_explicit_levels), ("default-not-first", op_default_not_first),
-             ("third-path-config-demo-style", op_third_path_config_demo_style), ("name-patterns", op_name_patterns)]
+             ("third-path-config-demo-style", op_third_path_config_demo_style), ("name-patterns", op_name_patterns),
+             ("partial-path-config", op_partial_path_config)]
 
 
 def family(tier):
@@ -473,13 +486,13 @@ def family(tier):
         out[n] = f(DEMO)
     allspec = DEMO
     for n, f in OPERATORS:
-        if n in ("remove-level", "third-path-config-demo-style", "name-patterns"):
+        if n in ("remove-level", "third-path-config-demo-style", "name-patterns", "partial-path-config"):
             continue  # insert + remove on the same basetype is covered by pairs; the third configuration keeps its own module there
         allspec = f(allspec)
     out["all-together"] = allspec
     if tier == "thorough":
-        for (n1, f1), (n2, f2) in itertools.combinations(OPERATORS, 2):
-            out[n1 + "+" + n2] = f2(f1(DEMO))
+        for (n1, f1), (n2, f2) in itertools.combinations([o for o in OPERATORS if o[0] != "partial-path-config"], 2):
+            out[n1 + "+" + n2] = f2(f1(DEMO))       # (the partial configuration is explored alone: its pairs have not been run yet)
     return out
 
 
